@@ -15,4 +15,8 @@ func extraGens() {
 	runGen("c18", genC18)
 	runGen("c16", genC16)
 	runGen("c19", genC19)
+	runGen("c20", genC20)
+	runGen("c05", genC05)
+	runGen("c07", genC07)
+	runGen("c04", genC04)
 }
